@@ -343,6 +343,18 @@ fn sweep_blocks_ip(b: &IpBlocks, v6: bool) -> usize {
         n += 1;
     }
     n += probe_iter(|| b.iter());
+    // the decoded blocks against parts of themselves (every leading run of blocks, every single block): containment and the set
+    // operations are entry points whose second argument is as much decoded input as the first
+    let all: Vec<IpBlock> = b.iter().collect();
+    for k in 0..all.len().min(6) {
+        let head: IpBlocks = all[..=k].iter().cloned().collect();
+        let one: IpBlocks = [all[k].clone()].into_iter().collect();
+        for part in [&head, &one] {
+            let _ = (part.contains(b), b.contains(part), part.intersection(b).is_empty(), b.difference(part).is_empty(), part.union(b).is_empty(),
+                     b.verify_covered(&IpResources::blocks(part.clone())).is_ok(), part.verify_covered(&IpResources::blocks(b.clone())).is_ok());
+            n += 7;
+        }
+    }
     let _ = (b.is_empty(), b.contains(b), b.intersection(b).is_empty());
     n
 }
@@ -375,6 +387,16 @@ fn sweep_blocks_as(b: &AsBlocks) -> usize {
         n += 1 + probe_iter(|| blk.iter());
     }
     n += probe_iter(|| b.iter()) + probe_iter(|| b.iter_asns());
+    let all: Vec<AsBlock> = b.iter().collect();
+    for k in 0..all.len().min(6) {
+        let head: AsBlocks = all[..=k].iter().cloned().collect();
+        let one: AsBlocks = [all[k].clone()].into_iter().collect();
+        for part in [&head, &one] {
+            let _ = (part.contains(b), b.contains(part), part.intersection(b).is_empty(), b.difference(part).is_empty(), part.union(b).is_empty(),
+                     b.verify_covered(&AsResources::blocks(part.clone())).is_ok(), part.verify_covered(&AsResources::blocks(b.clone())).is_ok());
+            n += 7;
+        }
+    }
     let _ = (b.is_empty(), b.contains(b), b.asn_count(), format!("{b}"));
     n + b.iter_asns().take(100).count()
 }
